@@ -50,14 +50,15 @@ def pools(quick):
     """The constants of the exhaustive model (one dict for TLC and for the worker)."""
     if quick:
         values = [-8, 3, 12]
-        titles = ["NOTICE", "notice", "warn", "WARN", "h\u00e9llo"]
+        # (the last title needs escaping in JSON: '&', '<', a backslash)
+        titles = ["NOTICE", "notice", "warn", "WARN", "h\u00e9llo", "R&D<a\\b>"]
         opts = [opt(),
                 opt(tags("", "S", "SW", "", "", "SWEEL"), treat=4, err=[[]], clr=1),
                 opt(treat=2, err=[[True], [False]]),
                 opt(treat=0, err=[[True]], clr=2)]
     else:
         values = [-8, 3, 12, 17]
-        titles = ["NOTICE", "notice", "Hint", "warn", "WARN", "h\u00e9llo", "\u00d1u", "x"]
+        titles = ["NOTICE", "notice", "Hint", "warn", "WARN", "h\u00e9llo", "\u00d1u", "x", "R&D<a\\b>", "q\"\u2028\t"]
         opts = [opt(),
                 opt(tags("", "S", "SW", "", "", "SWEEL"), treat=4, err=[[]], clr=1),
                 opt(treat=2, err=[[True], [False]]),
@@ -207,7 +208,7 @@ def rand_title(rng):
         return b[:1].upper() + b[1:]
     if k == 3:
         return "".join(c.upper() if rng.random() < 0.5 else c for c in b)
-    return b + rng.choice(["", "2", "_", "\u00e9", "X"])
+    return b + rng.choice(["", "2", "_", "\u00e9", "X", "&", "<x>", "\\", "\"", "\u2028", "\t"])
 
 
 def rand_opt(rng):
